@@ -636,7 +636,10 @@ class _FnState(object):
             # numpy multi-axis index: gather
             return AV(b.kind, b.ord, b.val | i.val | i.ord)
         if b.kind == 'dict':
-            return AV('unk', b.ord, b.val | i.val)
+            # an element of a dict may itself be a dict whose keys were
+            # stored through the outer one (d[k1][k2] = v): its key order
+            # was recorded on d
+            return AV('unk', b.ord, b.val | i.val, b.kord)
         const_idx = isinstance(e.slice, ast.Constant) or (
             isinstance(e.slice, ast.UnaryOp)
             and isinstance(e.slice.operand, ast.Constant))
@@ -937,6 +940,24 @@ class _FnState(object):
             if isinstance(s, ast.Assign):
                 av = self.ev(s.value, env)
                 lo = self.loop_ord(s, env)
+                if lo and self._draws_from_rng(s.value):
+                    # a shared random stream is an order-sensitive
+                    # accumulator: what a draw returns depends on how many
+                    # draws came before it, i.e. on the order in which the
+                    # enclosing loops visit their elements
+                    extra = frozenset(
+                        (lab[0], f'{lab[1]}=>random-stream') + tuple(lab[2:])
+                        for lab in lo)
+                    for lab in extra:
+                        self.eng.source_locs.setdefault(
+                            lab[1], self.eng.source_locs.get(
+                                lab[1].split('=>')[0], '?'))
+                    fl = av.fields
+                    if fl is not None:
+                        fl = tuple((k_, AV(f_.kind, f_.ord, f_.val | extra,
+                                           f_.kord, f_.fields))
+                                   for (k_, f_) in fl)
+                    av = AV(av.kind, av.ord, av.val | extra, av.kord, fl)
                 for t in s.targets:
                     self._assign(t, av, out, env, s, lo)
                 v = s.value
@@ -997,6 +1018,37 @@ class _FnState(object):
                     self._sink(av.ord | av.val, s,
                                f'return value of {self.fi.name}')
         return out
+
+    def _rng_names(self):
+        if not hasattr(self, '_rng_cache'):
+            names = {p for p in self.fi.params if 'rng' in p.lower()}
+            for n in ast.walk(self.fi.node):
+                if isinstance(n, ast.Assign) and isinstance(
+                        n.value, ast.Call) and isinstance(
+                            n.value.func, ast.Attribute) \
+                        and n.value.func.attr in ('default_rng',
+                                                  'RandomState'):
+                    for t in n.targets:
+                        if isinstance(t, ast.Name):
+                            names.add(t.id)
+            self._rng_cache = names
+        return self._rng_cache
+
+    def _draws_from_rng(self, expr):
+        names = self._rng_names()
+        if not names:
+            return False
+        for c in ast.walk(expr):
+            if not isinstance(c, ast.Call):
+                continue
+            f = c.func
+            if isinstance(f, ast.Attribute) and isinstance(
+                    f.value, ast.Name) and f.value.id in names:
+                return True
+            for a in list(c.args) + [k.value for k in c.keywords]:
+                if isinstance(a, ast.Name) and a.id in names:
+                    return True
+        return False
 
     def _order_sensitive_add(self, s, old, av):
         # list += list / str += str are order sensitive; numeric sums are
@@ -1068,9 +1120,13 @@ class _FnState(object):
                 r = cur.get(AV.REST, CLEAN)
                 cur[AV.REST] = r.join(self._nofields(av))
                 fields = tuple(sorted(cur.items(), key=lambda kv: kv[0]))
+            # the sequence of keys inserted by a loop is as unordered as
+            # the keys themselves: `for i in range(n): d[names[i]] = ...`
+            # inserts in the order of `names`
+            key_lab = idx_val if self.loop_labels.get(id(stmt)) else EMPTY
             out[base.id] = AV('dict', old.ord | av.ord,
                               old.val | av.val,
-                              old.kord | lo | av.kord, fields)
+                              old.kord | lo | av.kord | key_lab, fields)
         elif isinstance(target, ast.Subscript):
             # array scatter / list item store: position given by the index
             kind = old.kind
